@@ -69,7 +69,7 @@ fn run_cmd(dir: &PathBuf, args: &[String]) -> Result<(String, Option<i32>), Stri
         match child.try_wait() {
             Ok(Some(_)) => break,
             Ok(None) => {
-                if start.elapsed() > Duration::from_secs(150) {
+                if start.elapsed() > Duration::from_secs(40) {
                     let _ = child.kill();
                     let _ = child.wait();
                     return Err("watchdog".into());
@@ -106,7 +106,7 @@ fn run_c21_plan(plan: &c21::Plan) -> Result<ChildResult, String> {
             Ok(x) => x,
             Err(e) => {
                 let _ = std::fs::remove_dir_all(&dir);
-                return Err(e);
+                return Err(format!("{} (C21 plan seed {}, incarnation {}, crash {:?}, ops {})", e, plan.seed, i, inc.crash, inc.ops.len()));
             }
         };
         let crash_line: Option<String> = out.lines().find(|l| l.starts_with("CRASH ")).map(|l| l.to_string());
